@@ -171,6 +171,21 @@ pub fn families() -> Vec<(String, Vec<Spend>)> {
             Spend { parent: 1, amount: 1000, conds: vec![c(51, vec![vec![2u8; 32], be(400)])] },
         ]));
     }
+    // the same child also asserting that it is ephemeral: the assertion holds, the relative / birth condition is still refused
+    for (nm, lock) in [("height-relative", c(82, vec![be(1)])), ("seconds-relative", c(80, vec![be(1)])), ("before-height-relative", c(86, vec![be(100)])),
+                       ("before-seconds-relative", c(84, vec![be(100)])), ("birth-seconds", c(74, vec![be(5)])), ("birth-height", c(75, vec![be(5)])),
+                       ("height-relative-zero", c(82, vec![vec![]]))] {
+        for (order, child_conds) in [("assert-first", vec![c(76, vec![]), lock.clone()]), ("lock-first", vec![lock.clone(), c(76, vec![])])] {
+            out.push((format!("ephemeral-asserted-and-{nm}-{order}"), vec![
+                Spend { parent: 1, amount: 1000, conds: vec![c(51, vec![vec![2u8; 32], be(400)])] },
+                Spend { parent: 0xf1, amount: 400, conds: child_conds.clone() },
+            ]));
+            out.push((format!("ephemeral-asserted-and-{nm}-{order}-child-first"), vec![
+                Spend { parent: 0xf1, amount: 400, conds: child_conds },
+                Spend { parent: 1, amount: 1000, conds: vec![c(51, vec![vec![2u8; 32], be(400)])] },
+            ]));
+        }
+    }
     // ASSERT_EPHEMERAL on a coin that no spend of the bundle creates
     out.push(("ephemeral-asserted-not-created".into(), vec![
         Spend { parent: 1, amount: 1000, conds: vec![c(51, vec![vec![2u8; 32], be(401)])] },
@@ -386,8 +401,17 @@ pub fn check_family(name: &str, spends: &[Spend], thorough: bool) -> (u64, Vec<F
 }
 
 /// verdicts the rules prescribe at the limits (C01-C03 statements): (family, fork flags, strictness flags, accepted?)
-fn expected_verdicts() -> Vec<(&'static str, &'static str, &'static str, bool)> {
-    vec![
+fn expected_verdicts() -> Vec<(String, &'static str, &'static str, bool)> {
+    let mut dynamic: Vec<(String, &'static str, &'static str, bool)> = vec![];
+    // a relative or birth condition on a coin created in the same bundle is refused whether or not the spend also asserts
+    // that it is ephemeral, under every flag set
+    for (name, _) in families() {
+        if name.starts_with("ephemeral-asserted-and-") {
+            dynamic.push((name.clone(), "none", "", false));
+            dynamic.push((name.clone(), "cost-conditions", "all-three", false));
+        }
+    }
+    let fixed: Vec<(&'static str, &'static str, &'static str, bool)> = vec![
         ("spend-count-5999", "none", "LIMIT_SPENDS", true), ("spend-count-6000", "none", "LIMIT_SPENDS", true),
         ("spend-count-6001", "none", "LIMIT_SPENDS", false), ("spend-count-6001", "none", "", true),
         ("spend-count-6000", "cost-conditions", "LIMIT_SPENDS", true), ("spend-count-6001", "cost-conditions", "LIMIT_SPENDS", false),
@@ -407,7 +431,8 @@ fn expected_verdicts() -> Vec<(&'static str, &'static str, &'static str, bool)> 
         ("ephemeral-birth", "none", "", false), ("ephemeral-birth-child-first", "none", "", false),
         ("ephemeral-plain", "none", "", true), ("ephemeral-plain-child-first", "none", "", true),
         ("ephemeral-asserted", "cost-conditions", "all-three", true), ("ephemeral-asserted-child-first", "cost-conditions", "all-three", true),
-    ]
+    ];
+    fixed.into_iter().map(|(a, b, c, d)| (a.to_string(), b, c, d)).chain(dynamic).collect()
 }
 
 pub fn relations_ground(thorough: bool) -> EvalResult {
@@ -431,6 +456,7 @@ pub fn relations_ground(thorough: bool) -> EvalResult {
         for (fam, fork, strict, want) in expected_verdicts() {
             res.obligations += 1;
             let spends = match fams.iter().find(|f| f.0 == fam) { Some(f) => &f.1, None => continue };
+            let fam = fam.as_str();
             let ff = fork_flags().into_iter().find(|f| f.0 == fork).map(|f| f.1).unwrap_or(ConsensusFlags::empty());
             let sf = strict_sets().into_iter().find(|f| f.0 == strict).map(|f| f.1).unwrap_or(ConsensusFlags::empty());
             let got = run(spends, ff | sf).is_ok();
